@@ -814,3 +814,27 @@ LEMMAS['transform_preserves_acq'] = dict(
           ('lemma', 'selacq_image', ['a', 'b', 'M', '2 * N', 'N']),
           ('lemma', 'partnersum_acq', ['a', 'b', 'N'])],
 )
+
+# ------------------------------------------------------------------ C03 / C05: a valid map with Hermitian images keeps operators Hermitian
+LEMMAS['ordp_parity'] = dict(
+    doc='parity of the phase of the ordered product of selected images of a valid map: only the (X_i, Z_i) image pairs anticommute, '
+        'so the odd powers of i are exactly the x.z products of the selection',
+    params=[('g', 'int1'), ('M', 'int2'), ('pm', 'int1'), ('n', 'int'), ('N', 'int')],
+    requires=['N >= 0', 'gram_map(M, N)', 'bits2(M)', 'rows(M) == 2 * N', 'cols(M) == 2 * N', 'bits(g, 2 * N)', 'n <= 2 * N',
+              'forall(k, 0, 2 * N, pm[k] == 0 or pm[k] == 2)'],
+    ensures=['(OrdP(g, M, pm, n, N) - XZPartial(g, n)) % 2 == 0'],
+    induction='n',
+    uses_step=[('forall_lemma', [('c', '0', '2 * N')], 'ordg_bits', ['g', 'M', 'n - 1', 'c']),
+               ('lemma', 'ipow_parity', ['OrdGRow(g, M, n - 1)', 'M[n - 1]', 'N']),
+               ('lemma', 'ordg_acq', ['g', 'M', 'n - 1', 'M[n - 1]', 'N']),
+               ('lemma', 'acq_antisym', ['M[n - 1]', 'OrdGRow(g, M, n - 1)', 'N']),
+               ('lemma', 'selacq_map', ['g', 'M', 'n - 1', 'n - 1', 'N'])],
+    uses=[],
+)
+LEMMAS['xzpartial_full'] = dict(
+    doc='the partial x.z sum over all 2m positions is the x.z sum over m qubits',
+    params=[('g', 'int1'), ('m', 'int')],
+    requires=[],
+    ensures=['XZPartial(g, 2 * m) == XZSum(g, m)'],
+    induction='m', fuel=2,
+)
